@@ -595,3 +595,10 @@ for _p in ("C03", "C09", "C18"):
 
 # C20: every sub-pattern (also the `..rest` collector) is bound with the statement's own kind (declaration vs assignment)
 PROPS["C20"]._v = PROPS["C20"]._v + [u for u in ALL_V if u.name in ("object_bind", "list_bind")]
+
+
+# Lexer::skip_whitespace_and_comments, for text of any length (C09); the Kani cell on 3 chars stays as a bounded second back end
+V_LEXSKIP = VUnit("lex_skip", "lex_skip", ["lexer::Lexer::skip_whitespace_and_comments"])
+ALL_V += [V_LEXSKIP]
+PROPS["C02"]._v = ALL_V
+PROPS["C09"]._v = PROPS["C09"]._v + [V_LEXSKIP]
